@@ -166,9 +166,10 @@ type State struct {
 	spawned  []spawnRec
 	step     *stepState // thread-modular mode
 	inAtomic bool
-	lastRecv string      // "ok" term of the last channel receive ("" = none yet)
-	axioms   []axiomTerm // assumed lazily: added to an obligation only when relevant to its goal
-	quiet    bool        // spec translation: assumptions produced by loads are dropped
+	lastRecv string              // "ok" term of the last channel receive ("" = none yet)
+	cloCells map[string]*Closure // closures stored in cells (captured func-typed variables), keyed by heap|index
+	axioms   []axiomTerm         // assumed lazily: added to an obligation only when relevant to its goal
+	quiet    bool                // spec translation: assumptions produced by loads are dropped
 }
 
 type axiomTerm struct {
@@ -183,7 +184,7 @@ type loopEntry struct {
 
 func (st *State) clone() *State {
 	n := &State{g: st.g, heaps: make(map[string]string, len(st.heaps)), old: st.old, written: make(map[string]bool, len(st.written)),
-		loopSt: map[int]*loopEntry{}, dry: st.dry, vc: st.vc, axioms: st.axioms, spawned: append([]spawnRec(nil), st.spawned...), step: st.step.clone(), inAtomic: st.inAtomic, lastRecv: st.lastRecv}
+		loopSt: map[int]*loopEntry{}, dry: st.dry, vc: st.vc, axioms: st.axioms, spawned: append([]spawnRec(nil), st.spawned...), step: st.step.clone(), inAtomic: st.inAtomic, lastRecv: st.lastRecv, cloCells: cloneClo(st.cloCells)}
 	for k, v := range st.heaps {
 		n.heaps[k] = v
 	}
@@ -196,6 +197,17 @@ func (st *State) clone() *State {
 	n.pc = append([]string(nil), st.pc...)
 	n.pathLog = append([]string(nil), st.pathLog...)
 	n.fr = st.fr.clone()
+	return n
+}
+
+func cloneClo(m map[string]*Closure) map[string]*Closure {
+	if m == nil {
+		return nil
+	}
+	n := make(map[string]*Closure, len(m))
+	for k, v := range m {
+		n[k] = v
+	}
 	return n
 }
 
@@ -240,6 +252,11 @@ func (st *State) havocHeap(h string) {
 	old := st.cur(h, sort)
 	st.heaps[h] = st.g.heapConst(h, sort)
 	st.markWritten(h)
+	for k := range st.cloCells {
+		if strings.HasPrefix(k, h+"|") {
+			delete(st.cloCells, k)
+		}
+	}
 	if h == "$brk" {
 		// the allocation watermark only grows
 		st.assume(fmt.Sprintf("(>= (select %s 0) (select %s 0))", st.heaps[h], old))
@@ -273,6 +290,11 @@ func (st *State) loadLoc(l *Loc) Val {
 	}
 	v := st.scalar(l.Typ, t)
 	v.Src = l.Heap
+	if st.cloCells != nil {
+		if c, ok := st.cloCells[l.Heap+"|"+l.Idx]; ok {
+			v.Clo = c
+		}
+	}
 	return v
 }
 
@@ -299,6 +321,14 @@ func (st *State) assumeRange(t types.Type, term string) {
 
 func (st *State) storeLoc(l *Loc, v Val) {
 	st.sharedAccess(l.Heap, true)
+	if v.Clo != nil {
+		if st.cloCells == nil {
+			st.cloCells = map[string]*Closure{}
+		}
+		st.cloCells[l.Heap+"|"+l.Idx] = v.Clo
+	} else if st.cloCells != nil {
+		delete(st.cloCells, l.Heap+"|"+l.Idx)
+	}
 	sort := locSort(l)
 	h := st.cur(l.Heap, sort)
 	var t string
